@@ -24,6 +24,7 @@
 use arc_swap::ArcSwap;
 use futures::channel::mpsc;
 use futures::Future;
+use serde_json::json;
 use std::collections::{BTreeMap, BTreeSet, HashMap};
 use std::convert::TryFrom;
 use std::pin::Pin;
@@ -912,6 +913,10 @@ impl Runner {
         self.s.stats.count(&format!("out.follow.k{}.{}", k, kind));
         let mig = info.as_ref().map(|i| i[probe.slot].mig.is_some()).unwrap_or(false);
         self.s.stats.count(if mig { "gen.slot.migrating" } else { "gen.slot.stable" });
+        if k == 2 || kind == "H" {
+            self.s.stats.sample(json!({"start": probe.start, "slot": probe.slot, "level": self.net.level.load(Ordering::SeqCst),
+                "trace": hops.iter().map(render_hop).collect::<Vec<_>>().join(";")}));
+        }
         self.oracle(&probe.start, probe.slot, &hops, info, synced);
         self.emit(
             format!("follow {} {} {}", probe.start, probe.slot, picks_txt),
@@ -1214,16 +1219,82 @@ async fn gen_case(r: &mut Runner, rng: &mut Rng, thorough: bool, idx: u64) {
     }
 }
 
+/// Replays are written with the proxy addresses of the run that recorded them, but the real store
+/// allocates chunks in `HashMap` order, which differs from run to run.  All proxies are generated
+/// alike (`10.0.<j>.1:…`), so a recorded run is replayed up to the renaming of `<j>` that makes the
+/// recorded allocation choices equal to the ones the store makes this time.
+#[derive(Default)]
+struct Remap {
+    map: BTreeMap<u64, u64>,
+}
+
+impl Remap {
+    fn idx(tok: &str) -> Option<(u64, &str)> {
+        let rest = tok.strip_prefix("10.0.")?;
+        let dot = rest.find('.')?;
+        let j: u64 = rest[..dot].parse().ok()?;
+        Some((j, &rest[dot..]))
+    }
+    fn get(&mut self, j: u64) -> u64 {
+        if let Some(x) = self.map.get(&j) {
+            return *x;
+        }
+        let used: BTreeSet<u64> = self.map.values().cloned().collect();
+        let mut x = j;
+        if used.contains(&x) {
+            x = 1;
+            while used.contains(&x) || (self.map.contains_key(&x) && x != j) {
+                x += 1;
+            }
+        }
+        self.map.insert(j, x);
+        x
+    }
+    fn tok(&mut self, t: &str) -> String {
+        match Self::idx(t) {
+            Some((j, rest)) => format!("10.0.{}{}", self.get(j), rest),
+            None => t.to_string(),
+        }
+    }
+    /// recorded and actual allocation (`a,b;c,d` or a single address): pair them up
+    fn learn(&mut self, recorded: &str, actual: &str) {
+        let split = |s: &str| -> Vec<u64> {
+            s.split(|c| c == ',' || c == ';').filter_map(|t| Self::idx(t).map(|x| x.0)).collect()
+        };
+        let (r, a) = (split(recorded), split(actual));
+        if r.len() == a.len() {
+            for (x, y) in r.into_iter().zip(a.into_iter()) {
+                self.map.entry(x).or_insert(y);
+            }
+        }
+    }
+}
+
 async fn replay(r: &mut Runner, lines: &[String]) {
     r.new_case();
+    let mut remap = Remap::default();
     for l in lines.iter() {
         if l.starts_with('#') {
             continue;
         }
-        let toks: Vec<&str> = l.split(' ').collect();
+        let raw: Vec<&str> = l.split(' ').collect();
+        let has_choice = matches!(raw.as_slice(), ["b", "add_cluster", ..] | ["b", "add_nodes", ..] | ["b", "failover", ..]);
+        let n = raw.len();
+        let owned: Vec<String> = raw
+            .iter()
+            .enumerate()
+            .map(|(i, t)| if has_choice && i + 1 == n { t.to_string() } else { remap.tok(t) })
+            .collect();
+        let toks: Vec<&str> = owned.iter().map(|s| s.as_str()).collect();
         match toks.as_slice() {
             ["case", _] => r.new_case(),
-            ["b", rest @ ..] => r.do_b(rest),
+            ["b", rest @ ..] => {
+                r.do_b(rest);
+                if has_choice {
+                    let actual = r.ops.last().and_then(|o| o.split(' ').last().map(|s| s.to_string())).unwrap_or_default();
+                    remap.learn(raw[n - 1], &actual);
+                }
+            }
             ["proxy", a, h] => r.do_proxy(a, h),
             ["view", a, l] => {
                 let lim = l.parse().unwrap_or(0);
